@@ -234,6 +234,19 @@ func c06Body(rc *corepkg, own bool) {
 					// delayed / duplicated / reordered delivery of an earlier heartbeat
 					hb = w.M.Sent[s.Choose(len(w.M.Sent), "hb.old")]
 					rc.Extra["stale_or_duplicate_sent"]++
+					if s.Choose(4, "hb.newterm") == 0 {
+						// a freshly elected leader that has not applied the latest conf change / split yet: a newer
+						// raft term together with an older epoch
+						cp := *hb
+						if r := w.M.Regions[hb.GetRegion().GetId()]; r != nil {
+							r.Term++
+							cp.Term = r.Term
+						} else {
+							cp.Term += uint64(1 + s.Choose(3, "hb.termup"))
+						}
+						hb = &cp
+						rc.Extra["lagging_new_leader_sent"]++
+					}
 				} else {
 					rs := w.M.SortedRegions()
 					hb = w.M.Heartbeat(rs[s.Choose(len(rs), "hb.region")])
